@@ -246,6 +246,43 @@ Proof.
     unfold sread in N3. cbn [s_arr s_lo s_len] in N3. exact N3.
 Qed.
 
+(* io.ReadFull: all k bytes and no error when they are there; otherwise an error, and everything that was there is gone *)
+Theorem read_full_refines h b k : WF h b ->
+  let '(b', out, err) := read_full h b k in
+  WF h b' /\ contents h b' = skipn k (contents h b) /\
+  (k <= unread b -> out = firstn k (contents h b) /\ err = false) /\
+  (unread b < k -> out = contents h b /\ err = true).
+Proof.
+  intros W. unfold read_full. cbn [read_loop].
+  pose proof (contents_length h b W) as Hl.
+  destruct (k =? 0) eqn:Ek.
+  - apply Nat.eqb_eq in Ek. subst k. cbn [skipn firstn].
+    split; [exact W|]. split; [reflexivity|]. split; [intros _; split; reflexivity | intros H; lia].
+  - apply Nat.eqb_neq in Ek. destruct (unread b =? 0) eqn:Eu.
+    + apply Nat.eqb_eq in Eu. rewrite (empty_contents h b W Eu), skipn_nil, reset_contents.
+      split; [apply reset_wf; exact W|]. split; [reflexivity|]. split; [lia | intros _; split; reflexivity].
+    + apply Nat.eqb_neq in Eu.
+      pose proof (read_refines h b k W) as R. destruct (read h b k) as [b1 out1] eqn:E1.
+      destruct R as (W1 & C1 & O1). cbn [app].
+      assert (Lo : length out1 = Nat.min k (unread b)) by (rewrite O1, firstn_length, Hl; reflexivity).
+      destruct (Nat.le_gt_cases k (unread b)) as [Hk|Hk].
+      * (* everything in one Read *)
+        rewrite Lo, Nat.min_l by exact Hk. rewrite Nat.sub_diag.
+        destruct k as [|k']; [lia|]. cbn [read_loop Nat.eqb].
+        split; [exact W1|]. split; [exact C1|]. split; [intros _; split; [exact O1 | reflexivity] | lia].
+      * (* short: the first Read takes what is there, the second finds the buffer empty *)
+        rewrite Lo, Nat.min_r by lia.
+        assert (U1 : unread b1 = 0).
+        { pose proof (contents_length h b1 W1) as L1. rewrite C1, skipn_length, Hl in L1. lia. }
+        destruct k as [|k']; [lia|]. cbn [read_loop].
+        destruct (S k' - unread b =? 0) eqn:E0; [apply Nat.eqb_eq in E0; lia|].
+        rewrite U1. cbn [Nat.eqb].
+        split; [apply reset_wf; exact W1|]. split.
+        { rewrite reset_contents. symmetry. apply skipn_all2. lia. }
+        split; [lia|]. intros _. split; [|reflexivity].
+        rewrite O1. apply firstn_all2. lia.
+Qed.
+
 (* ---- the back-fill of a computed length field, as the frame encoders do it:
         binary.BigEndian.PutUint32(buf.Bytes()[p:p+4], n)  with Bytes() taken AFTER the body was written ---- *)
 Theorem fresh_backfill h b p bs : WF h b -> p + length bs <= unread b ->
@@ -305,7 +342,7 @@ Definition pokes (o : bop) : bool := match o with BPoke _ _ _ => true | _ => fal
 Lemma bstep_refines s o s' : WF (st_h s) (st_b s) -> pokes o = false -> bstep s o = Some s' ->
   WF (st_h s') (st_b s') /\ contents (st_h s') (st_b s') = astep (contents (st_h s) (st_b s)) o.
 Proof.
-  intros W Hp. destruct o as [nc bs|nc n|k|k| | |i p bs]; cbn [bstep astep pokes] in *; try discriminate.
+  intros W Hp. destruct o as [nc bs|nc n|k|k|k| | |i p bs]; cbn [bstep astep pokes] in *; try discriminate.
   - destruct (write nc (st_h s) (st_b s) bs) as [[h b]|] eqn:E; [|discriminate].
     intros [= <-]. cbn [st_h st_b]. apply (write_refines _ _ _ _ _ _ W E).
   - destruct (grow_only nc (st_h s) (st_b s) n) as [[h b]|] eqn:E; [|discriminate].
@@ -313,6 +350,8 @@ Proof.
   - pose proof (next_refines (st_h s) (st_b s) k W) as N. destruct (next (st_b s) k) as [b sl].
     intros [= <-]. cbn [st_h st_b]. destruct N as (A & B & _). split; assumption.
   - pose proof (read_refines (st_h s) (st_b s) k W) as N. destruct (read (st_h s) (st_b s) k) as [b out].
+    intros [= <-]. cbn [st_h st_b]. destruct N as (A & B & _). split; assumption.
+  - pose proof (read_full_refines (st_h s) (st_b s) k W) as N. destruct (read_full (st_h s) (st_b s) k) as [[b out] err].
     intros [= <-]. cbn [st_h st_b]. destruct N as (A & B & _). split; assumption.
   - intros [= <-]. cbn [st_h st_b]. split; [apply reset_wf; exact W | apply reset_contents].
   - intros [= <-]. cbn [st_h st_b]. split; [exact W | reflexivity].
